@@ -70,6 +70,22 @@ static char *verif_getenv(const char *name)
 	(void)name;
 	return NULL;
 }
+/* free() as seen by reader.c.  While the harness is inside a lookup constructor with
+ * fe_cut_null_create set, reaching free() means the "no block for this key -> return NULL" path
+ * of reader_iter_init(); the harness explores that case in a separate query (DESIGN.md C02), and
+ * cutting it here keeps the dead-in-this-query path from being merged into every later access. */
+static int fe_in_create, fe_cut_null_create;
+static void verif_free_reader(void *p)
+{
+	if (fe_in_create && fe_cut_null_create) {
+		/* the harness assumed the query is not beyond the last index key, so this path must
+		 * be dead; if the code takes it anyway that is a wrong "nothing found" */
+		V_ASSERT(0, "C02: lookup constructor gave up (no block) for a key that is not beyond the last index key");
+		V_ASSUME(0);
+	}
+	free(p);
+}
+#define free verif_free_reader
 #define fstat verif_fstat
 #define mmap verif_mmap
 #define munmap verif_munmap
